@@ -73,6 +73,9 @@ pub enum Ev {
     AppIin(u8),
     // --- used by C14 only ---
     DisableC1,
+    /// ENABLE / DISABLE_UNSOLICITED for exactly class k (2 or 3)
+    EnableOnly(u8),
+    DisableOnly(u8),
     Adv(u64),
 }
 
@@ -916,6 +919,15 @@ impl Driver {
                 new_request = true;
                 disable = Some(self.last_seq);
             }
+            Ev::EnableOnly(k) => {
+                sent = Some(app::request(next_seq(&mut self.last_seq), fc::ENABLE_UNSOLICITED, &app::hdr_all(60, 1 + *k)));
+                new_request = true;
+            }
+            Ev::DisableOnly(k) => {
+                sent = Some(app::request(next_seq(&mut self.last_seq), fc::DISABLE_UNSOLICITED, &app::hdr_all(60, 1 + *k)));
+                new_request = true;
+                disable = Some(self.last_seq);
+            }
             Ev::Disable => {
                 sent = Some(app::request(
                     next_seq(&mut self.last_seq),
@@ -1143,6 +1155,9 @@ pub fn replay(scenario: &str, path: &[usize]) -> Option<RunResult> {
         if let Some(s) = super::c03x::series(tier).into_iter().find(|s| s.name() == scenario) {
             return Some(s.run(path, true));
         }
+        if let Some(s) = super::c03x::release_orders(tier).into_iter().find(|s| s.name() == scenario) {
+            return Some(s.run(path, true));
+        }
     }
     scenarios("thorough").into_iter().find(|s| s.name == scenario).map(|s| s.run(path, true))
 }
@@ -1156,9 +1171,12 @@ pub fn check(tier: &str) -> i32 {
     for s in super::c03x::series(tier) {
         c.explore(&s);
     }
+    for s in super::c03x::release_orders(tier) {
+        c.explore(&s);
+    }
     c.finish(
         "model_checking",
-        "(per-type accounting) each of the 8 event types x per-type limit {1,2} x {only that type has room, all types} x 1..=5 updates x {one point, two points in different classes}: update2 reports Created / Overflow(oldest) exactly as a bounded FIFO per type says, the survivors are offered, the confirmed ones released (event_cleared ids); (event series) 40 analog / 5 large octet-string events (thorough: + 60 binary, 45 counter) answered in several fragments at tx 249: every history of depth 3 (5) over {READ, right confirm, wrong confirm, confirm timeout, another request, one more update, reconnect} followed by a drain: released ids are exactly those of the confirmed fragment, every fragment carries the oldest updates still owed, nothing is left; (ledger) every event history over the listed alphabet (updates of 4 points in 3 classes incl. two same-type points in different classes, READs by class / with count limit / by type / class 0, right and wrong solicited and unsolicited confirms, confirm timeout, DISABLE/ENABLE_UNSOLICITED, another request, reconnect) up to the listed depth, followed by a fixed drain (poll classes 1/2/3 with confirms), executed on the real OutstationTask; the ledger oracle is evaluated after every event; non-trivial = at least one event was recorded and at least one event-bearing response was transmitted; distinct = distinct observation trace",
+        "(per-type accounting) each of the 8 event types x per-type limit {1,2} x {only that type has room, all types} x 1..=5 updates x {one point, two points in different classes}: update2 reports Created / Overflow(oldest) exactly as a bounded FIFO per type says, the survivors are offered, the confirmed ones released (event_cleared ids); (event series) 40 analog / 5 large octet-string events (thorough: + 60 binary, 45 counter) answered in several fragments at tx 249: every history of depth 3 (5) over {READ, right confirm, wrong confirm, confirm timeout, another request, one more update, reconnect} followed by a drain: released ids are exactly those of the confirmed fragment, every fragment carries the oldest updates still owed, nothing is left; (release order) two points of one type in two classes, every history of depth 6 (7) over {update either point, READ a class, READ one event of a class, READ everything} each READ confirmed: responses and released ids equal a plain list's; (ledger) every event history over the listed alphabet (updates of 4 points in 3 classes incl. two same-type points in different classes, READs by class / with count limit / by type / class 0, right and wrong solicited and unsolicited confirms, confirm timeout, DISABLE/ENABLE_UNSOLICITED, another request, reconnect) up to the listed depth, followed by a fixed drain (poll classes 1/2/3 with confirms), executed on the real OutstationTask; the ledger oracle is evaluated after every event; non-trivial = at least one event was recorded and at least one event-bearing response was transmitted; distinct = distinct observation trace",
         &[
             "the driver advances time only in whole confirm timeouts, so 'still awaiting confirmation' is decided by t_sent + timeout > now",
             "event values/times are unique per update so that a transmitted object identifies its ledger row",
